@@ -262,9 +262,4 @@ func cmdLemma(w *World, cfg *RunCfg, names []string) int {
 	return 0
 }
 
-func cmdCheck(w *World, cfg *RunCfg, prop, replay string, t0 time.Time) int {
-	fmt.Fprintln(os.Stderr, "check not implemented yet")
-	return 2
-}
-
 var _ = sort.Strings
